@@ -97,8 +97,12 @@ func checks() map[string]CheckDef {
 			{Pkg: "internal/zzverif/c03", Func: "HarnessWriteStatements", Quick: [][]int64{{2}}, Thorough: [][]int64{{4}}, Labels: []string{"C03/no-header-disappears", "C03/only-state-label-changes", "C03/write-statements-found"}},
 			{Pkg: "database", Func: "HarnessRealBatches", Quick: [][]int64{{3, 1}, {3, 2}}, Thorough: [][]int64{{4, 1}, {4, 3}},
 				Labels: []string{"C17/same-hash-at-same-height", "C17/same-fields", "C17/same-cumulative-work"}},
+			// the work clause of the statement: HarnessDerived compares the stored work with CalculateWork's own result,
+			// so CalculateWork and CompactToBig are decided against the formula here as well (same harnesses as C19)
+			{Pkg: "internal/zzverif/c19", Func: "HarnessCompact", Labels: []string{"C19/compact-to-big", "C19/compact-sign"}, Unwind: 600, Solver: "z3"},
+			{Pkg: "internal/zzverif/c19", Func: "HarnessWork", Labels: []string{"C19/work", "C19/work-nonneg"}, Unwind: 600, Solver: "z3"},
 		},
-		Bounds:  []string{"the import write path: the real sqLiteAdapter.importHeaders batch loop over k exported rows (quick k=3, thorough k=4) with the batch size set to 1..3 through the verification overlay (the constant 500 becomes a variable in the overlay only): hash, height, fields and cumulative work of every imported header equal the exported chain", "hash and derived fields: full field domain (all int32 versions, uint32 bits/nonce, 32-byte hashes, timestamps over the uint32 epoch range); bits of the derived-field harness from a 6-entry menu (work exactness on all 2^32 encodings is C19)", "round trip next to k arbitrary rows (quick k<=2, thorough k<=5)", "every INSERT/UPDATE/DELETE statement constant of the database packages that names the headers table, with arbitrary arguments, on k arbitrary rows"},
+		Bounds:  []string{"own work = floor(2^256/(target+1)), zero for non-positive targets: all 2^32 values of bits (the C19 harnesses for CompactToBig and CalculateWork, exponent byte case-split)", "the import write path: the real sqLiteAdapter.importHeaders batch loop over k exported rows (quick k=3, thorough k=4) with the batch size set to 1..3 through the verification overlay (the constant 500 becomes a variable in the overlay only): hash, height, fields and cumulative work of every imported header equal the exported chain", "hash and derived fields: full field domain (all int32 versions, uint32 bits/nonce, 32-byte hashes, timestamps over the uint32 epoch range); bits of the derived-field harness from a 6-entry menu (work exactness on all 2^32 encodings is C19)", "round trip next to k arbitrary rows (quick k<=2, thorough k<=5)", "every INSERT/UPDATE/DELETE statement constant of the database packages that names the headers table, with arbitrary arguments, on k arbitrary rows"},
 		Outside: []string{"SHA-256 itself (uninterpreted)", "sub-second timestamps", "driver value conversions of go-sqlite3 (exercised by the native witness replays, not by the solver)", "restarts: the service keeps no header state in memory; persistence is SQLite's", "statements assembled at run time with fmt.Sprintf are not enumerated"},
 		Stubs:   []string{"crypto/sha256.Sum256 = uninterpreted function per input length", "bytes.Buffer, io, encoding/binary are executed from their Go source"},
 	})
@@ -126,8 +130,10 @@ func checks() map[string]CheckDef {
 				Labels: []string{"C09/unauthenticated-gets-structured-401-before-any-handler-logic", "C09/authenticated-is-let-through", "C09/auth-disabled-routes-reachable-without-credentials", "C09/api-routes-registered"}},
 			{Pkg: "internal/zzverif/c09", Func: "HarnessRevokedLater", Quick: [][]int64{{1}}, Thorough: [][]int64{{2}, {3}},
 				Labels: []string{"C09/administrator-can-revoke", "C09/revoked-token-gets-structured-401-on-the-next-request"}},
+			{Pkg: "internal/zzverif/c09", Func: "HarnessNearMissTokens",
+				Labels: []string{"C09/unauthenticated-gets-structured-401-before-any-handler-logic", "C09/authenticated-is-let-through", "C09/api-routes-registered"}},
 		},
-		Bounds:  []string{"every route that endpoints.SetupRoutes / metrics.Register / websocket.SetupEntrypoint register on the working tree (enumerated at run time) x {use_auth} x {debug_profiling}", "Authorization header = 0..3 space-separated space-free atoms, each an arbitrary string (this is every header value with at most two spaces, incl. empty parts)", "admin token an arbitrary non-empty space-free string; tokens table of k arbitrary rows (quick k=1, thorough k<=3)"},
+		Bounds:  []string{"every route that endpoints.SetupRoutes / metrics.Register / websocket.SetupEntrypoint register on the working tree (enumerated at run time) x {use_auth} x {debug_profiling}", "Authorization header = 0..3 space-separated space-free atoms, each an arbitrary string (this is every header value with at most two spaces, incl. empty parts)", "admin token an arbitrary non-empty space-free string; tokens table of k arbitrary rows (quick k=1, thorough k<=3)", "strings are atoms in the encoding, so byte-level near misses come from a menu: 16 concrete variants (proper prefixes incl. empty, extensions, case variants, suffixes, SQL wildcards, concatenation) of one concrete admin token and one concrete stored token, on every API route"},
 		Outside: []string{"gin's own route matching and net/http (routes are addressed by their pattern)", "metrics route (metrics are disabled in the harness)", "the websocket connect handshake (C10)", "header values with three or more spaces (all are refused by the same len(parts) != 2 test)"},
 		Stubs:   []string{"gin.Context modelled (Param/Query/GetHeader/Bind*/JSON/Abort*/Set/Get/Next); gin's RouterGroup code runs from source, Engine.addRoute is intercepted", "wrapped net/http handlers (swagger, pprof, websocket) are opaque handlers answering 200"},
 	})
@@ -269,6 +275,8 @@ func checks() map[string]CheckDef {
 			{Pkg: "database", Func: "HarnessRealBatches", Quick: [][]int64{{3, 1}, {3, 2}}, Thorough: [][]int64{{4, 1}, {4, 2}, {4, 3}},
 				Labels: []string{"C17/import-succeeds", "C17/same-hash-at-same-height", "C17/same-fields", "C17/same-cumulative-work", "C17/stale-and-orphan-headers-left-out"}},
 			{Pkg: "database", Func: "HarnessFileRoundTrip", Quick: [][]int64{{2}, {3}}, Thorough: [][]int64{{4}},
+				Labels: []string{"C17/export-succeeds", "C17/import-succeeds", "C17/same-hash-at-same-height", "C17/same-fields", "C17/same-cumulative-work", "C17/stale-and-orphan-headers-left-out"}},
+			{Pkg: "database", Func: "HarnessExportOverEarlierFile", Quick: [][]int64{{1, 1}, {2, 1}}, Thorough: [][]int64{{2, 2}, {3, 1}},
 				Labels: []string{"C17/export-succeeds", "C17/import-succeeds", "C17/same-hash-at-same-height", "C17/same-fields", "C17/same-cumulative-work", "C17/stale-and-orphan-headers-left-out"}},
 			{Pkg: "database", Func: "HarnessSecondStart", Quick: [][]int64{{1}, {2}}, Thorough: [][]int64{{3}},
 				Labels: []string{"C17/existing-headers-never-overwritten", "C17/start-on-inconsistent-leftover-is-refused"}},
